@@ -21,6 +21,6 @@ def signature(f):
 
 
 def run(ctx):
-    n = 600 if ctx.quick else 12000
+    n = 600 if ctx.quick else 6000
     ctx.tlc("MC_Syntax", "MC_Syntax_sim", replay="syntax-visit", simulate={"num": n, "depth": 500, "procs": 12, "seed_offset": 20},
             label="MC_Syntax_sim", timeout=7200)
